@@ -47,6 +47,7 @@ BASES = {
     "B2": [["create", "a", "1"], ["mkdir", "d"], ["create", "d/b", "2"],
            ["mkdir", "e"], ["mkdir", "e/f"], ["create", "e/f/g", "3"], ["create", "h", "4"]],
     "B3": [["create", "a", "1"], ["create", "b", "2"]],
+    "B4": [["create", "a", "1"], ["mkdir", "d"], ["create", "d/b", "2"], ["mkdir", "m"]],
 }
 
 ENGINE = ("IL", "IR", "S")
